@@ -14,14 +14,17 @@ ID = "C08"
 FACTS = ["History"]
 RULE = ("histories over a pool of 2 parsers (thorough: 3) and the alphabet {construct(settings, config-path flag), add_arguments, "
         "parse(valid argv), parse(invalid argv), print_help, format_help}: every well-formed abstract history of length <= 4 "
-        "(thorough <= 5) is enumerated (of those of maximal length without any parse one in ten is kept) and 1500 (thorough 20000) draws from them, each of the quick tier's about three times, are made concrete from VERIF_SEED (settings from all 18 "
-        "combinations; dataclasses {my_x:int}, +name:str, +pair:Tuple[int,str], +model:subgroups(ma|mb) at dest a, {other_y:int}, "
-        "+tag:str at dest b; valid argv written in the parser's OWN spelling, optionally naming config files; invalid argv = unknown "
-        "option, non-int, missing value, bad choice, bad/short tuple, stray word, missing file, foreign spelling, --help), plus the "
-        "standing witnesses of the five known defects and 150 (thorough 2000) random histories of length 5-10 (thorough 5-12). EACH "
-        "HISTORY RUNS IN ITS OWN PROCESS (forked from an interpreter that has only imported the library); every parse is compared "
-        "with the model AND with a fresh-process run of the same definition + argv. Non-trivial = a parse that is preceded by another "
-        "parse/help of the same parser, a late add_arguments, or the construction of another parser; distinct by full case.")
+        "(thorough <= 5) is enumerated (slots first used in order; of the maximal-length ones without any parse one in ten is kept); "
+        "the shorter ones are each made concrete once, the maximal-length ones fill a budget of 1500 (thorough 20000) draws from "
+        "VERIF_SEED - in the quick tier each about three times, independently (settings from all 18 combinations; dataclasses "
+        "{my_x:int}, +name:str, +pair:Tuple[int,str], +model:subgroups(ma|mb) at dest a, {other_y:int}, +tag:str at dest b; valid argv "
+        "written in the parser's OWN spelling, optionally naming config files; invalid argv = unknown option, non-int, missing value, "
+        "bad choice, bad/short/repeated tuple, field of the other subgroup, stray word, missing or extension-less file, foreign "
+        "spelling, --help/-h); plus the standing witnesses of the known defects, the Example of Properties/C08.v and 150 (thorough "
+        "2000) random histories of length 5-10 (thorough 5-12). EACH HISTORY RUNS IN ITS OWN PROCESS; every parse is compared with "
+        "the model AND with a fresh-process run of the same definition + argv (the property's own oracle). Non-trivial = a parse "
+        "preceded, since its parser was constructed, by another parse/help of that parser, a late add_arguments or the construction "
+        "of another parser; distinct by full case.")
 TRUSTED = ["harness/c08_driver.py: each history and each oracle run executes in a child forked from a parent whose only action was "
            "`import simple_parsing` (no parser constructed, no dataclass defined); the child asserts the FieldWrapper class attributes "
            "still have their initial values. C08_FRESH=spawn runs every job in a brand-new interpreter instead (same results)",
